@@ -104,6 +104,7 @@ package executor
 //@ func (*mySQLUndoUpdateExecutor).ExecuteOn
 //@   prop C09 C01
 //@   at call GetOrderedPkList: assert C01/keys-of-the-row-being-restored: arg_row == row && arg_image == m.sqlUndoLog.BeforeImage
+//@   ensures C01/a-statement-that-changed-no-row-needs-no-undo: called("dataValidationAndGoOn#1") && callres("dataValidationAndGoOn#1", 0) && callres("dataValidationAndGoOn#1", 1) == nil && m.sqlUndoLog.BeforeImage != nil && len(m.sqlUndoLog.BeforeImage.Rows) == 0 ==> result == nil && !called("PrepareContext#1")
 //@   modifies ghost.all, heap.all
 //@   requires m != nil && conn != nil && m.baseExecutor != nil
 //@   ensures validated-first: ghost.stmts_open != old(ghost.stmts_open) || ghost.execs != old(ghost.execs) || called("PrepareContext#1") ==> called("dataValidationAndGoOn#1")
@@ -115,6 +116,7 @@ package executor
 //@ func (*mySQLUndoDeleteExecutor).ExecuteOn
 //@   prop C09 C01
 //@   at call GetOrderedPkList: assert C01/keys-of-the-row-being-restored: arg_row == row && arg_image == m.sqlUndoLog.BeforeImage
+//@   ensures C01/a-statement-that-changed-no-row-needs-no-undo: called("dataValidationAndGoOn#1") && callres("dataValidationAndGoOn#1", 0) && callres("dataValidationAndGoOn#1", 1) == nil && m.sqlUndoLog.BeforeImage != nil && len(m.sqlUndoLog.BeforeImage.Rows) == 0 ==> result == nil && !called("PrepareContext#1")
 //@   modifies ghost.all, heap.all
 //@   requires m != nil && conn != nil && m.baseExecutor != nil
 //@   ensures validated-first: ghost.stmts_open != old(ghost.stmts_open) || ghost.execs != old(ghost.execs) || called("PrepareContext#1") ==> called("dataValidationAndGoOn#1")
@@ -124,7 +126,8 @@ package executor
 //@   at call PrepareContext#1: assert same-conn: called("dataValidationAndGoOn#1") && callarg("dataValidationAndGoOn#1", 2) == conn
 
 //@ func (*mySQLUndoInsertExecutor).ExecuteOn
-//@   prop C09
+//@   prop C09 C01
+//@   ensures C01/a-statement-that-changed-no-row-needs-no-undo: called("dataValidationAndGoOn#1") && callres("dataValidationAndGoOn#1", 0) && callres("dataValidationAndGoOn#1", 1) == nil && m.sqlUndoLog.AfterImage != nil && len(m.sqlUndoLog.AfterImage.Rows) == 0 ==> result == nil && !called("PrepareContext#1")
 //@   modifies ghost.all, heap.all
 //@   requires m != nil && conn != nil && m.BaseExecutor != nil
 //@   ensures validated-first: ghost.stmts_open != old(ghost.stmts_open) || ghost.execs != old(ghost.execs) || called("PrepareContext#1") ==> called("dataValidationAndGoOn#1")
